@@ -1334,6 +1334,35 @@ def sts_cmd(h):
     return '%d %d %d' % (o.max_age.value.days * 86400 + o.max_age.value.seconds, int(o.include_subdomains.value), int(o.preload.value))
 
 
+def _cookie_params_hex(obj):
+    from cryptoparser.httpx.header import HttpHeaderFieldValueSetCookieParams
+    import attr
+    params = HttpHeaderFieldValueSetCookieParams(**{n: getattr(obj, n) for n in attr.fields_dict(HttpHeaderFieldValueSetCookieParams)})
+    return 'P' + hx(params.compose())
+
+
+def cookiepair_cmd(h):
+    """name, value and (as the composed attribute list) what the attribute-list parser made of the remainder"""
+    from cryptoparser.httpx.header import HttpHeaderFieldValueSetCookie
+    o = HttpHeaderFieldValueSetCookie.parse_exact_size(bytes.fromhex('' if h == '-' else h))
+    return '%s %s %s' % (o.name.encode('ascii').hex() or '-', o.value.encode('ascii').hex() or '-', _cookie_params_hex(o))
+
+
+def cookieenc_cmd(nh, vh):
+    """a cookie constructed from name and value: composed, parsed back, compared"""
+    from cryptoparser.httpx.header import HttpHeaderFieldValueSetCookie
+    o = HttpHeaderFieldValueSetCookie(bytes.fromhex('' if nh == '-' else nh).decode('ascii'), bytes.fromhex('' if vh == '-' else vh).decode('ascii'))
+    b = bytes(o.compose())
+    if parse_back(HttpHeaderFieldValueSetCookie, b) != o:
+        raise RoundTripError('parse(compose(o)) != o')
+    return hx(b)
+
+
+def cookieparams_cmd(h):
+    from cryptoparser.httpx.header import HttpHeaderFieldValueSetCookieParams
+    return 'P' + hx(HttpHeaderFieldValueSetCookieParams.parse_exact_size(bytes.fromhex('' if h == '-' else h)).compose())
+
+
 def hline_cmd(strict, h):
     from cryptoparser.httpx.header import HttpHeaderFieldUnparsed, HttpHeaderFieldServer
     data = bytes.fromhex('' if h == '-' else h)
@@ -1376,7 +1405,7 @@ COMMANDS = {
     'mysqlssl41': mysql_ssl41, 'mysqlhs': mysql_hs, 'mysqlssl320': mysql_ssl320, 'ovpnctl': ovpn_ctl, 'ovpntcp': ovpn_tcp, 'ovpnack': ovpn_ack, 'ovpnhrc': ovpn_hrc, 'ovpnhrs': ovpn_hrs, 'ovpndec': ovpn_dec, 'pgssl': pg_ssl,
     'sshpad': ssh_pad, 'mpintspec': mpint_spec, 'kexenc': kex_enc, 'kexdec': kex_dec, 'sshmsg': ssh_msg, 'sshmsgdec': ssh_msg_dec,
     'rsablob': blob_cmd(rsa_blob), 'dssblob': blob_cmd(dss_blob), 'edblob': blob_cmd(ed_blob), 'ecblob': blob_cmd(ec_blob),
-    'keytag': keytag_cmd, 'dsenc': ds_enc, 'mxenc': mx_enc, 'mxdec': mx_dec, 'nameenc': name_enc, 'txtenc': txt_enc, 'rrsigenc': rrsig_enc,
+    'keytag': keytag_cmd, 'dsenc': ds_enc, 'mxenc': mx_enc, 'mxdec': mx_dec, 'cookiepair': cookiepair_cmd, 'cookieenc': cookieenc_cmd, 'cookieparams': cookieparams_cmd, 'nameenc': name_enc, 'txtenc': txt_enc, 'rrsigenc': rrsig_enc,
     'dnskeyrsaenc': dnskey_rsa_enc, 'dnskeyecenc': dnskey_ec_enc, 'dnskeyedenc': dnskey_ed_enc, 'dnskeydec': dnskey_dec,
     'chenc': ch_enc, 'ssl2chenc': ssl2_ch_enc, 'ssl2bigrec': ssl2_big_record, 'ssl2shenc': ssl2_sh_enc, 'chdec': ch_dec, 'ja3impl': ja3_cmd, 'shenc': sh_enc, 'certenc': cert_enc, 'shdenc': shd_enc, 'certreqenc': certreq_enc, 'certreqdec': certreq_dec, 'certstenc': certst_enc, 'certstdec': certst_dec,
     'recenc': rec_enc, 'alertenc': alert_enc, 'ccsenc': ccs_enc, 'extenc': ext_enc,
